@@ -128,7 +128,7 @@ func TestVerif_C01_esc(t *testing.T) {
 	s := c01New(t, "C01", "esc",
 		"strings from the nasty-value pool, random bytes (all 256 values) and random picks from a structural alphabet, length 0..80; modes path-segment and query-component; non-trivial = at least one byte needs escaping")
 	r := s.Rand()
-	n := verifh.N(3000, 200000)
+	n := verifh.N(6000, 200000)
 	for i := 0; i < n; i++ {
 		v := c01RandValue(r)
 		if r.Intn(10) == 0 {
@@ -205,7 +205,7 @@ func TestVerif_C01_parse(t *testing.T) {
 	s := c01New(t, "C01", "parse",
 		"URLs assembled from pools of schemes (absent, mixed case, invalid), authorities (ports, empty ports, IPv6, zones, userinfo, escapes, invalid bytes), paths (escapes valid/invalid, reserved, non-ASCII, relative, colon in first segment), queries, fragments; plus random short strings over a structural alphabet; non-trivial = parse succeeded")
 	r := s.Rand()
-	n := verifh.N(4000, 300000)
+	n := verifh.N(10000, 300000)
 	for i := 0; i < n; i++ {
 		raw := c01RandURL(r)
 		u, err := url.Parse(raw)
@@ -494,7 +494,7 @@ func TestVerif_C01_url(t *testing.T) {
 	s := c01New(t, "C01", "url",
 		"structured stream: templates of 0..4 path segments (literal / {key} / pre{key}post) over absolute, scheme-less(+client scheme) and relative(+base URL) forms, request- and client-level path maps with overlapping keys (0..3 each), values from the nasty pool (reserved, CR/LF/NUL, non-ASCII, placeholders, percent forms) and random bytes, client/request query maps (0..3 keys, 0..3 values, overlapping, empty and reserved keys), optional raw query and fragment; wild stream: pool/random URLs with placeholders injected anywhere (authority, query, nested braces), odd schemes and base URLs; non-trivial = URL produced and at least one parameter or query key applied")
 	r := s.Rand()
-	n := verifh.N(5000, 300000)
+	n := verifh.N(12000, 300000)
 	c := C()
 	for i := 0; i < n; i++ {
 		var tc c01URLCase
